@@ -35,12 +35,15 @@ def name_field(name, tail=b''):
     return field + b'\x00' * (20 - len(field))
 
 
-def write_v2(tmap, pad, record_bytes, is64=1, freq=24000000):
-    """tmap: list of (tid, pid, name20bytes)."""
+def write_v2(tmap, pad, record_bytes, is64=1, freq=24000000, opaque12=b'', opaque256=b''):
+    """tmap: list of (tid, pid, name20bytes).  opaque12 / opaque256: the header bytes no reader interprets (time of day
+    of the capture, reserved words) - whatever the kernel left there."""
     layout = []
     out = bytearray(V2)
     layout.append(('version', 0, 4))
-    out += struct.pack('<I', len(tmap)) + b'\x00' * 8 + b'\x00' * 4 + struct.pack('<IQ', is64, freq) + b'\x00' * 0x100
+    o12 = (bytes(opaque12) + b'\x00' * 12)[:12]
+    o256 = (bytes(opaque256) + b'\x00' * 0x100)[:0x100]
+    out += struct.pack('<I', len(tmap)) + o12 + struct.pack('<IQ', is64, freq) + o256
     layout.append(('header', 4, len(out)))
     s = len(out)
     for tid, pid, name in tmap:
